@@ -627,7 +627,9 @@ def gen_sweep(rng, world, probes):
     finds a property that edits what another one cached, whatever the pair"""
     n_obj = len(world["objects"])
     k = rng.randrange(n_obj)
-    target, cls = rng.choice(probes[k])
+    parts = [pc for pc in probes[k] if pc[0][0] != "self"]
+    # mostly a partition (that is where most of the cached state lives), sometimes the cube / set itself
+    target, cls = rng.choice(parts) if parts and rng.random() < 0.8 else rng.choice(probes[k])
     reads = [["read", k, list(target), n, list(a)] for n, a in E.READS[cls]]
     if target[0] != "self" and rng.random() < 0.5:
         reads += [["read", k, ["self"], n, list(a)] for n, a in E.READS[probes[k][0][1]]]
